@@ -44,7 +44,6 @@ def infer_decoder_fn(facts, fn, ev=None, roles=None):
         if roles and i in roles:
             role = roles[i]
         elif i == 0 and fn.get('method') in ('decode', 'decode_into', 'skip', 'decode_wrapped', 'len', 'decode_all',
-                                             'decode_with_depth_limit', 'decode_with_mem_limit',
                                              'scale_internal_decode_bytes'):
             role = ('input',)
         elif i < len(inputs) and inputs[i].startswith('&mut ') and any(
@@ -52,6 +51,9 @@ def infer_decoder_fn(facts, fn, ev=None, roles=None):
             role = ('input',)
         elif i < len(inputs) and inputs[i] in ('&mut &[u8]',):
             role = ('input',)
+        if role is None and i < len(inputs) and any(
+                (' %s: Fn' % inputs[i].replace('&mut ', '')) in (' ' + pr) for pr in fn.get('preds', [])):
+            role = ('param_fn', p['name'])
         if role is None:
             role = ('param', p['name'], p.get('ty'))
         ctx.env[p['v']] = role
